@@ -112,9 +112,12 @@ func (p *proxy) call(ctx erpc.UnknownCallCtx) (interface{}, *erpc.Status) {
 	}
 	label.ServiceMethod = ctx.ServiceMethod()
 	callcmd := p.callForwarder(&label).Call(label.ServiceMethod, ctx.InputBodyBytes(), &result, settings...)
-	callcmd.InputMeta().VisitAll(func(key, value []byte) {
-		ctx.SetMeta(goutil.BytesToString(key), goutil.BytesToString(value))
-	})
+	// a call that failed before any reply arrived has no input metadata
+	if inputMeta := callcmd.InputMeta(); inputMeta != nil {
+		inputMeta.VisitAll(func(key, value []byte) {
+			ctx.SetMeta(goutil.BytesToString(key), goutil.BytesToString(value))
+		})
+	}
 	stat := callcmd.Status()
 	if !stat.OK() && stat.Code() < 200 && stat.Code() > 99 {
 		// a new status: the one returned may be a status shared by the whole process
